@@ -1155,7 +1155,7 @@ class MathOperations:
             classes[i] = min(degreea - multa, degreeb - multb)
         degreec = degreea + degreeb
         knotvectorc = [knotvectora[0]] * (degreec + 1)
-        for knot, classe in zip(allknots[1:-1], classes):
+        for knot, classe in zip(allknots[1:-1], classes[1:-1]):
             knotvectorc += [knot] * (degreec - classe)
         knotvectorc += [knotvectora[-1]] * (degreec + 1)
         return ImmutableKnotVector(knotvectorc)
